@@ -32,6 +32,8 @@ type FaultBackend struct {
 	conns int
 	reqs  int // client requests (not probes) whose head was received
 	done  bool
+	// Lost is set when the port could not be re-acquired after a "refuse" phase (tool condition)
+	Lost bool
 }
 
 // Requests is the number of non-probe requests this backend has received.
@@ -75,7 +77,9 @@ func (fb *FaultBackend) SetMode(m string) {
 		return
 	}
 	if fb.l == nil {
-		for i := 0; i < 200; i++ {
+		// the port was released for the "refuse" behaviour; another process may have been given
+		// it meanwhile (ephemeral allocation), so retry for a while and report instead of failing
+		for i := 0; i < 2000; i++ {
 			l, err := net.Listen("tcp", fb.addr)
 			if err == nil {
 				fb.l = l
@@ -84,7 +88,7 @@ func (fb *FaultBackend) SetMode(m string) {
 			}
 			time.Sleep(5 * time.Millisecond)
 		}
-		panic("fault backend: cannot re-listen on " + fb.addr)
+		fb.Lost = true
 	}
 }
 
